@@ -840,3 +840,84 @@ Proof.
   destruct (run_safe_gen c fx m Hm Hst Hrt Hfb ops (init_state c) ltac:(constructor) Hd) as [H1 H2].
   split; assumption.
 Qed.
+
+(* ------------------------------------------------------------------ accessor_safe *)
+(* Every accessor of the read API applied to a well-formed receiver (any Ptr handed out by the
+   reader, converted with Ptr.Struct() / Ptr.List()) with arguments in the documented domain:
+   no panic; returned pointers are well-formed; returned bytes are a sub-list [sub seg a n]
+   (= firstn n (skipn a seg)) of a supplied segment, never anything else. *)
+Theorem accessor_safe c m p : msg_ok m -> cfg_strict c = true -> wf_ptr m p ->
+  let s := as_struct p in let l := as_list p in
+  (forall rl i, 0 <= i < 65536 -> res_sat (fst (struct_ptr c m rl s i)) (wf_ptr m)) /\
+  (forall i, 0 <= i < 65536 -> struct_hasptr m s i <> Panic) /\
+  (forall off n, 0 <= off < 524288 -> in_width n = true ->
+     struct_uint m s off n <> Panic /\
+     (p_valid s = true -> struct_uint m s off n =
+        Ok (if off + n <=? DataSize (p_size s) then le_decode (sub (seg_of m s) (p_off s + off) n) else 0))) /\
+  (forall n, 0 <= n < 4194304 -> struct_bit m s n <> Panic) /\
+  (forall fd i, 0 <= i < list_len l -> res_sat (list_struct fd l i) (wf_ptr m)) /\
+  (forall fu rl i, 0 <= i < list_len l -> res_sat (fst (ptrlist_at c fu m rl l i)) (wf_ptr m)) /\
+  (forall fu i n, 0 <= i < list_len l -> in_width n = true ->
+     res_sat (list_uint_at fu m l i n)
+       (fun v => v = 0 \/ exists a, 0 <= a /\ a + n <= zlen (seg_of m l) /\ v = le_decode (sub (seg_of m l) a n))) /\
+  (forall i, 0 <= i < list_len l -> bitlist_at true m l i <> Panic) /\
+  res_sat (ptr_text m p) (fun o => match o with
+                                   | None => True
+                                   | Some b => b = sub (seg_of m p) (p_off p) (p_len p - 1) /\ 0 <= p_off p /\
+                                               0 < p_len p /\ p_off p + p_len p <= zlen (seg_of m p)
+                                   end) /\
+  res_sat (ptr_data m p) (fun o => match o with
+                                   | None => True
+                                   | Some b => b = sub (seg_of m p) (p_off p) (p_len p) /\ 0 <= p_off p /\
+                                               0 <= p_len p /\ p_off p + p_len p <= zlen (seg_of m p)
+                                   end).
+Proof.
+  intros Hm Hc Hw s l.
+  pose proof (wf_struct_as_struct m p Hw) as Hs. pose proof (wf_list_as_list m p Hw) as Hl.
+  fold s in Hs. fold l in Hl.
+  split; [|split; [|split; [|split; [|split; [|split; [|split; [|split; [|split]]]]]]]].
+  - intros rl i Hi. eapply res_sat_weaken; [apply struct_ptr_safe; auto; lia|auto].
+  - intros i Hi. apply struct_hasptr_safe; auto; lia.
+  - intros off n Ho Hn. apply in_width_range in Hn. split.
+    + apply struct_uint_safe; auto.
+    + intros V. apply struct_uint_spec; auto.
+  - intros n Hn. apply struct_bit_safe; auto; lia.
+  - intros fd i Hi. eapply res_sat_weaken; [apply (list_struct_safe fd m l i); auto|]. intros a [Ha _]. exact Ha.
+  - intros fu rl i Hi. eapply res_sat_weaken; [apply ptrlist_at_safe; auto|auto].
+  - intros fu i n Hi Hn. apply in_width_range in Hn. apply list_uint_at_safe; auto. lia.
+  - intros i Hi. apply bitlist_at_safe; auto.
+  - apply ptr_text_safe; auto.
+  - apply ptr_data_safe; auto.
+Qed.
+
+(* ------------------------------------------------------------------ as-found variants *)
+(* F21 (cfg_root = false): Message.Root on a message whose first segment is empty panics *)
+Example root_prefix_refuted : fst (root (mkCfg 0 0 true false) [[]] 64) = Panic.
+Proof. vm_compute. reflexivity. Qed.
+
+(* F02 (fx_bit = false): BitList.At panics for every index >= 2^22 of ANY valid bit list,
+   however long (addOffset's struct-field limit) *)
+Lemma bitlist_prefix_refuted m p i : p_valid p = true -> p_bit p = true ->
+  4194304 <= i < p_len p -> bitlist_at false m p i = Panic.
+Proof.
+  intros V B Hi. unfold bitlist_at. rewrite V, B. cbn [negb orb].
+  destruct (i <? 0) eqn:E1; [lia|]. destruct (i >=? p_len p) eqn:E2; [lia|]. cbn [orb]. cbv zeta.
+  unfold bitOffset_offset. destruct (addOffset (p_off p) (i / 8)) eqn:Ea; [|reflexivity].
+  apply addOffset_spec in Ea. lia.
+Qed.
+
+(* F06 (cfg_strict = false): with a traverse limit of 2^32 a composite tag with zero-sized
+   elements and count -1 is accepted: Root hands out a list with Len() = -1 *)
+Example strict_prefix_refuted :
+  let m := [[1;0;0;0;7;0;0;0; 252;255;255;255;0;0;0;0]] in
+  msg_ok m /\
+  exists p, fst (root (mkCfg 4294967296 0 false true) m 4294967296) = Ok p /\ p_valid p = true /\ p_len p = -1.
+Proof.
+  split.
+  - repeat constructor; cbn; try lia; unfold maxSegmentSize; lia.
+  - eexists. vm_compute. repeat split.
+Qed.
+(* the repaired reader rejects the same message *)
+Example strict_fixed_rejects :
+  fst (root (mkCfg 4294967296 0 true true) [[1;0;0;0;7;0;0;0; 252;255;255;255;0;0;0;0]] 4294967296) = Err.
+Proof. vm_compute. reflexivity. Qed.
